@@ -413,6 +413,11 @@ private:
         if (!props[prop::subscription_identifier].empty())
             return client::error::malformed_packet;
 
+        // Binary Data carries a two-byte length
+        const auto& correlation_data = props[prop::correlation_data];
+        if (correlation_data && correlation_data->size() > 65535)
+            return client::error::malformed_packet;
+
         const auto& content_type = props[prop::content_type];
         if (
             content_type &&
